@@ -811,6 +811,22 @@ class OrderEval:
             def visit_Call(inner, call: ast.Call):  # noqa: N805
                 call = inner.generic_visit(call)
                 cn = call_name(call)
+                # a key object built by another (NamedTuple) class:  _Key.of(x)  ->  the tuple of its fields
+                if cn and len(cn) == 2 and cn[0] in self.repo.classes and cn[0] != self.ci.name and not call.keywords:
+                    kc = self.repo.classes[cn[0]]
+                    h2 = self.repo.method(cn[0], cn[1])
+                    if h2 is not None and (h2.is_classmethod or h2.is_static) and any("NamedTuple" in b or b in ("tuple", "Tuple") for k in self.repo.mro(cn[0]) for b in k.base_names):
+                        params = h2.params[1:] if h2.is_classmethod else h2.params
+                        if len(params) == len(call.args):
+                            henv2: Dict[str, ast.AST] = dict(zip(params, call.args))
+                            for st in h2.body:
+                                if isinstance(st, ast.Assign) and len(st.targets) == 1 and isinstance(st.targets[0], ast.Name):
+                                    henv2[st.targets[0].id] = subst_names(st.value, henv2)
+                                elif isinstance(st, ast.Return) and isinstance(st.value, ast.Call) and unparse(st.value.func) in ("cls", kc.name) and not st.value.keywords:
+                                    return ast.Tuple(elts=[subst_names(a, henv2) for a in st.value.args], ctx=ast.Load())
+                                else:
+                                    return call
+                    _ = kc
                 if cn and len(cn) == 2 and cn[0] in (self.ci.name, "cls", fi.params[0]) and not call.keywords:
                     h = self.repo.method(self.ci.name, cn[1])
                     if h is not None and cn[1] not in CMP and cn[1] not in ("__eq__", "__ne__", "__hash__"):
@@ -877,6 +893,11 @@ def rule_r6_semantic(ctx: Ctx, ci: ClassInfo, own: List[str]) -> None:
         for st in walk_no_nested(fi_m.node):
             if isinstance(st, ast.Assign) and len(st.targets) == 1 and isinstance(st.targets[0], ast.Name):
                 env_m[st.targets[0].id] = ev.inline(fi_m, st.value, env_m)
+            elif isinstance(st, ast.Assign) and len(st.targets) == 1 and isinstance(st.targets[0], ast.Tuple) and isinstance(st.value, ast.Tuple) and len(st.targets[0].elts) == len(st.value.elts):
+                vals = [ev.inline(fi_m, v, env_m) for v in st.value.elts]
+                for t, v in zip(st.targets[0].elts, vals):
+                    if isinstance(t, ast.Name):
+                        env_m[t.id] = v
         for st in walk_no_nested(fi_m.node):
             if isinstance(st, (ast.Return, ast.If)):
                 e0 = st.value if isinstance(st, ast.Return) else st.test
